@@ -671,6 +671,35 @@ func sioBrokenSpecProbe(ctx context.Context, c *sio.Crew) error {
 			return fmt.Errorf("an operation that failed (uncompilable specification for %q) changed the crew: %s -> %s", mid, canon(before), canon(after))
 		}
 	}
+	// one operation with several good updates and a broken one among them: whichever updates the crew has applied when
+	// it gives up (the order is the order of a Go map), the crew reports exactly what it did - a consumer that folds the
+	// reported changes has the machines the crew has, no more and no fewer
+	good := map[string]interface{}{"inline": map[string]interface{}{"name": "L9", "doc": "fwd"}}
+	upd := map[string]interface{}{"zz-p-bad": map[string]interface{}{"spec": broken}}
+	for i := 0; i < 7; i++ {
+		upd[fmt.Sprintf("zz-p%d", i)] = map[string]interface{}{"spec": good}
+	}
+	r, err := c.ProcessMsg(ctx, map[string]interface{}{"to": "captain", "update": upd})
+	if err != nil {
+		return fmt.Errorf("ProcessMsg with one uncompilable specification among several updates: %v", err)
+	}
+	after, _ := sioSnapshot(c)
+	for i := 0; i < 7; i++ {
+		id := fmt.Sprintf("zz-p%d", i)
+		_, live := after[id]
+		reported := false
+		if r != nil {
+			if ch, have := r.Changed[id]; have && ch != nil && !ch.Deleted {
+				reported = true
+			}
+		}
+		if live != reported {
+			return fmt.Errorf("an operation that failed half-way: machine %q is in the crew: %v, reported as created: %v", id, live, reported)
+		}
+	}
+	if _, live := after["zz-p-bad"]; live {
+		return fmt.Errorf("a machine with an uncompilable specification was created")
+	}
 	return nil
 }
 
